@@ -1,0 +1,29 @@
+//! Thin public wrappers around crate-private items, compiled only with the `verif` feature. Used by
+//! external verification machinery to run the real code on generated inputs. Adds no behaviour.
+
+use crate::alignment::Alignment;
+
+/// `Alignment::new(raw)`, returning the exponent on success.
+pub fn alignment_new(raw: u64) -> Option<u8> {
+    Alignment::new(raw).ok().map(|a| a.exponent)
+}
+
+pub fn alignment_value(exponent: u8) -> u64 {
+    Alignment { exponent }.value()
+}
+
+pub fn alignment_mask(exponent: u8) -> u64 {
+    Alignment { exponent }.mask()
+}
+
+pub fn align_up(exponent: u8, value: u64) -> u64 {
+    Alignment { exponent }.align_up(value)
+}
+
+pub fn align_down(exponent: u8, value: u64) -> u64 {
+    Alignment { exponent }.align_down(value)
+}
+
+pub fn align_modulo(exponent: u8, ref_offset: u64, offset: u64) -> u64 {
+    Alignment { exponent }.align_modulo(ref_offset, offset)
+}
